@@ -59,8 +59,8 @@ TEXT = {
     },
     "C18": {
         "technique": "property-based testing (rapid): configuration x session generator; dial-address, registration-prefix and PING/PONG token oracles on the wire",
-        "level_text": "Generated configurations and sessions are run through real Connect cycles against the scripted server: the dialled address (default port 6667/6697 only when absent), the exact registration prefix (CAP LS?, PASS?, NICK current, USER ident 12 * :name), one PONG per server PING carrying the same token for all token shapes, and client PINGs exactly when PingFreq > 0.",
-        "level_note": "SSL sessions are not established (address only). Bracketed IPv6 without a port is outside the generated domain.",
+        "level_text": "Generated configurations and sessions are run through real Connect cycles against the scripted server: the dialled address (default port 6667/6697 only when absent), the exact registration prefix (CAP LS?, PASS?, NICK current, USER ident 12 * :name), one PONG per server PING carrying the same token for all token shapes (also when the PING arrives behind a full output queue), and client PINGs exactly when PingFreq > 0 (on every connect cycle). Configuration may be changed through Config() between Client() and Connect().",
+        "level_note": "Scripted-socket leg: SSL configurations are checked for the dialled address only. Loopback leg: real TCP and TLS sessions without a proxy, default ports 6667/6697 actually reached (skipped, counted, if they cannot be bound). Bracketed IPv6 without a port is outside the generated domain.",
     },
     "C20": {
         "technique": "property-based testing (rapid): password x configuration x failure-point generator; differential oracle against a password-less control run over a capturing logger",
